@@ -94,10 +94,13 @@ def op_kind(op: Sequence[Any]) -> str:
 # ---------------------------------------------------------------------------
 def variant(name: str, *, backend: str = "local", layout: str = "abs", loc: str = "tbl", spelling: str = "absolute",
             clock: str = "TICK", props: bool = False, base: Sequence[Op] = (), depth: int = 3,
-            alphabet: Sequence[Op] = FULL_ALPHABET, max_open: int = 2, dedupe: bool = True) -> Dict[str, Any]:
+            alphabet: Sequence[Op] = FULL_ALPHABET, max_open: int = 2, dedupe: bool = True,
+            props_late: bool = False) -> Dict[str, Any]:
+    """props_late: the retention / metadata-log properties are committed AFTER the base history, i.e. lowered on a
+    live table whose snapshot list and metadata log are already longer than the new bounds."""
     return {"name": name, "backend": backend, "layout": layout, "loc": loc, "spelling": spelling, "clock": clock,
             "props": props, "base": [tuple(o) for o in base], "depth": depth, "alphabet": [tuple(o) for o in alphabet],
-            "max_open": max_open, "dedupe": dedupe}
+            "max_open": max_open, "dedupe": dedupe, "props_late": props_late}
 
 
 # ---------------------------------------------------------------------------
@@ -836,20 +839,32 @@ class Session:
         empty = TS()
         ts0 = read_ts(self.store.view(), self.store.listing())
         model, _ = model.advance(empty, ts0, ("create",))
-        if v["props"]:
-            mm = t.metadata_manager
+        def set_props(model: Any) -> Any:
+            from datashard import load_table
+
+            mm = load_table(self.store.loc).metadata_manager
+            before = read_ts(self.store.view(), self.store.listing())
             base = mm.refresh()
             new = copy.deepcopy(base)
             new.properties[RETENTION_PROP] = "2"
             new.properties[PREV_MAX_PROP] = "2"
             mm.commit(base, new)
-            ts1 = read_ts(self.store.view(), self.store.listing())
-            model, _ = model.advance(ts0, ts1, ("set_props",))
+            after = read_ts(self.store.view(), self.store.listing())
+            model2, _ = model.advance(before, after, ("set_props",))
+            return model2
+
+        late = bool(v.get("props_late"))
+        if v["props"] and not late:
+            model = set_props(model)
         st = {"vid": v["name"], "sid": None, "depth": 0, "hist": [], "env": ENV.snapshot(), "model": model,
               "txs": [], "rowctr": 0, "digest": ""}
         for op in v["base"]:
             st = self.step(st, tuple(op), judge=False, in_place=True)["state"]
             st["depth"] = 0
+        if v["props"] and late:
+            ENV.restore(st["env"])
+            st["model"] = set_props(st["model"])
+            st["env"] = ENV.snapshot()
         st["hist"] = []
         st["base_hist"] = [op_label(o) for o in v["base"]]
         ENV.restore(st["env"])
